@@ -43,10 +43,13 @@ func genC13(t *rapid.T) C13Case {
 			var s C13Step
 			if rapid.IntRange(0, 3).Draw(t, "special") == 0 {
 				s.Special = rapid.SampledFrom([]string{"abort-upload", "abort-download", "upgrade", "connect10", "idle-close", "half-request",
-					"mitm-abandon", "mitm-bad-hello", "mitm-cleartext"}).Draw(t, "specialkind")
+					"mitm-abandon", "mitm-bad-hello", "mitm-cleartext", "connect-reset-while-dialling", "reset-before-response"}).Draw(t, "specialkind")
 				s.Route = rapid.SampledFrom([]string{"direct", "direct", "mitm", "upstream"}).Draw(t, "sroute")
 				if strings.HasPrefix(s.Special, "mitm-") {
 					s.Route = "mitm"
+				}
+				if s.Special == "connect-reset-while-dialling" {
+					s.Route = "direct"
 				}
 				if s.Special == "connect10" && s.Route == "mitm" {
 					s.Route = "direct"
@@ -200,7 +203,9 @@ func (e *fltEnv) runSpecial(s C13Step, id int64, idx int) acct {
 		sc := &OriginScript{Parts: [][]byte{[]byte("HTTP/1.1 101 Switching Protocols\r\nConnection: Upgrade\r\nUpgrade: foo\r\n\r\nhello-from-origin")}, CloseAfter: true}
 		scripts.Store(vid, sc)
 		defer scripts.Delete(vid)
-		fmt.Fprintf(conn, "GET %s HTTP/1.1\r\nHost: %s\r\nX-Vid: %s\r\nConnection: Upgrade\r\nUpgrade: foo\r\n\r\n", target, host, vid)
+		// the Connection option is spelled in the ways clients spell it (token lists, with close / keep-alive)
+		connOpt := []string{"Upgrade", "keep-alive, Upgrade", "Upgrade, close", "close, upgrade"}[idx%4]
+		fmt.Fprintf(conn, "GET %s HTTP/1.1\r\nHost: %s\r\nX-Vid: %s\r\nConnection: %s\r\nUpgrade: foo\r\n\r\n", target, host, vid, connOpt)
 		m, err := ReadResponseHead(br, "GET")
 		if err != nil {
 			a.skip = true
@@ -209,6 +214,37 @@ func (e *fltEnv) runSpecial(s C13Step, id int64, idx int) acct {
 		a.reqs = append(a.reqs, acctReq{"GET", m.Status})
 		buf := make([]byte, 100)
 		br.Read(buf)
+	case "connect-reset-while-dialling":
+		// the client resets its connection while the proxy is still reaching the target: the 200 cannot be written
+		fmt.Fprintf(conn, "CONNECT slow.test:80 HTTP/1.1\r\nHost: slow.test:80\r\n\r\n")
+		time.Sleep(30 * time.Millisecond)
+		tc.SetLinger(0)
+		tc.Close()
+		time.Sleep(200 * time.Millisecond) // until the dial is over and the proxy has tried to answer
+		a.reqs = append(a.reqs, acctReq{"CONNECT", 0})
+	case "reset-before-response":
+		// the client resets while its request waits at the origin: the response cannot be written
+		release := make(chan struct{})
+		sc := &OriginScript{Parts: [][]byte{[]byte("HTTP/1.1 200 OK\r\nContent-Length: 2\r\n\r\nok")}, Gate: func(int) bool {
+			select {
+			case <-release:
+			case <-time.After(5 * time.Second):
+			}
+			return true
+		}}
+		scripts.Store(vid, sc)
+		defer scripts.Delete(vid)
+		fmt.Fprintf(conn, "GET %s HTTP/1.1\r\nHost: %s\r\nX-Vid: %s\r\n\r\n", target, host, vid)
+		time.Sleep(30 * time.Millisecond)
+		if tls_ {
+			conn.Close()
+		}
+		tc.SetLinger(0)
+		tc.Close()
+		time.Sleep(10 * time.Millisecond)
+		close(release)
+		time.Sleep(30 * time.Millisecond)
+		a.reqs = append(a.reqs, acctReq{"GET", 0})
 	case "connect10":
 		fmt.Fprintf(conn, "CONNECT %s HTTP/1.0\r\n\r\n", host)
 		m, err := ReadResponse(br, "CONNECT")
